@@ -32,6 +32,8 @@ def run(ctx):
                   'handed back to the Loop with them as the caller)', minimum=20)
     rmv = ctx.rule('R-MOVEOUT.site', 'the strategies take input values through Retire(); no move-out of a possibly '
                    'shared input core', minimum=0)
+    rout = ctx.rule('R-OUTCOME', 'every Promise::Set of a strategy hands on an accessor of the consumed Result or the '
+                    'collected values', minimum=6)
     rpf = ctx.rule('R-POLICYFWD', 'a function instantiated with a FailPolicy hands the same policy to every callee that '
                    'is parameterised by one (entry point -> when::When -> strategy class)', minimum=12)
     for cfg, fb in sorted(fbs.items()):
@@ -47,5 +49,6 @@ def run(ctx):
         ctx.guard(lambda: lib_when.check_callbacks(ctx, fb, rcb))
         ctx.guard(lambda: lib_when.check_sibling(ctx, fb, rsb))
         ctx.guard(lambda: lib_when.check_count(ctx, fb, rcn))
+        ctx.guard(lambda: lib_when.check_outcome(ctx, fb, rout, STRATS))
         lib_order.check(ctx, fb, cfg, ['yaclib::when::All::_done', 'yaclib::when::AllTuple::_done',
                                        'yaclib::when::Join::_done'], rw, ro, rc)
